@@ -483,7 +483,9 @@ def run_pair(axh, lines, dbg, ovf, tag, mode="model", keep_x=False):
                 return "hung", 0, ""
         if r1 != 0:
             return r1, 0, ""
-        r2 = subprocess.run([AXM, cf, of, mf, "1" if dbg else "0", "1" if ovf else "0", mode], timeout=3600,
+        # the extracted model recurses on Coq lists (not tail-recursively in places): give it the whole stack
+        r2 = subprocess.run(["sh", "-c", 'ulimit -s unlimited 2>/dev/null; exec "$0" "$@"', AXM, cf, of, mf,
+                             "1" if dbg else "0", "1" if ovf else "0", mode], timeout=3600,
                             stdout=subprocess.PIPE, stderr=subprocess.STDOUT)
         return r1, r2.returncode, r2.stdout.decode()[-300:]
 
